@@ -735,11 +735,9 @@ Proof.
   destruct (root_spec (root_pos_eff nm o)) as [rt| | |]; try discriminate. cbn [bind] in S.
   exists sb, rt. split; [reflexivity|]. split; [reflexivity|].
   destruct (match rt with RNone => true | _ => in_field (m_root mz) end); [|discriminate].
-  inversion S as [S']. rewrite E2, E3, E4.
+  injection S as S'. rewrite S', E2, E3, E4.
   pose proof (schema_hash_range O ty) as Hs.
-  rewrite (Z.mod_small (schema_hash O ty)) by lia.
-  rewrite (Z.mod_small (o_version o)) by lia.
-  rewrite (Z.mod_small (o_nonce o)) by lia. reflexivity.
+  rewrite (Z.mod_small _ _ Hs), (Z.mod_small _ _ Hv), (Z.mod_small _ _ Hn). reflexivity.
 Qed.
 
 (* C05_errors: exactly when a claim is produced *)
